@@ -20,6 +20,9 @@ Site classes
      compares the used name with `canonicalize ("/" ++ p)` = p for every node of a reference tree
   S  is_filename_sane on names read from an image: forged images (tools/sqfs_forge.py) with entry names from the
      reject set {".", "..", "a/b", "/", "x/", "/x"} and the accept set {"...", "..a", "a..", ".a", "a"}
+     The same images are given to sqfs2tar (probe sane_s2t; archive parsed from its raw records): on the pinned tree
+     it has no such call and writes the forged names into member names - known finding, fixes/C18-sqfs2tar-entry-names.patch
+Next to COVER (site -> probes), SHAPES holds the expected AST use shape of every call's result.
 """
 import collections, io, itertools, os, subprocess, tarfile, threading
 from concurrent.futures import ThreadPoolExecutor
